@@ -10,7 +10,8 @@ CHECKS = {
           "Every matrix scale*Q*diag(lambda)*Q^T with lambda a sorted multiset over {0,1e-8,1e-4,1e-2,1} (top 1), Q in "
           "{I, Householder, generic(seed)}, scale in {1e-6,1,1e6}, n in 1..5 (6 thorough), padding {0,2} ({0,1,3}), p in 1..8, "
           "three (five) ridge settings, Newton / eigh / LOBPCG-deflated (relative, absolute, padded), float64 and float32, Newton with "
-          "iteration budgets {4,8,12} (2..16) below convergence, plus all-padding inputs, is passed to the "
+          "iteration budgets {4,8,12} (2..16) below convergence, Newton with a `prev` argument (root of a nearby matrix), a subset with "
+          "jax_enable_x64 switched on only after the library was imported, plus all-padding inputs, is passed to the "
           "real routine exactly as the optimizer calls it (vmapped, traced p and padding_start). On every result: finite, exactly zero "
           "on padding, symmetric, estimate <= true lambda_max, and (float64, kappa_reg <= 1e8, reported error < 0.1) the true residual "
           "max|X^p(A+dI)-I| in 80-bit arithmetic, minimised over the admissible ridge interval, is bounded by the reported error plus "
@@ -25,7 +26,7 @@ CHECKS = {
           "merging, preconditioner type, exponent override, start step, both intervals, skip thresholds, eigh, relative/absolute epsilon) "
           "plus 17 interacting pairs, on two parameter trees (ranks 0-3; a rank-4 tree in thorough), replicated and sharded - and, for every "
           "structural option (block size, merging, preconditioner type, skip rules, exponent, eigh, refresh interval), under jax.pmap "
-          "over 2 (4) forced host devices on the tree with the most statistics - is driven "
+          "over 2 (3, 4) forced host devices on two trees (most statistics; statistics of sizes 2,3,3) - is driven "
           "through all histories over {gA,gB} of length <= 4 (5 with g0 in thorough). After every transition the stored statistics are "
           "compared with w1*L+w2*G_(i)G_(i)^T (2e-6) and every update leaf with the documented formula evaluated in float64 on the "
           "stored statistics (2e-4). Process-history dimension: before and after every task the neighbouring configurations are "
@@ -39,8 +40,8 @@ CHECKS = {
           "thorough S,P in 1..3, <=3 nan, T=6); every path of the dumped graph is replayed on the real optimizer and a poisoned statistic "
           "must never change the stored preconditioner. (b) BFS over every history over {gA, g0, NaN, Inf, 2^40, 2^-40, 2^100} of length "
           "<= 3 (4) with <= 2 (3) fault events for mode x threshold {0,1e-30,0.1,1e30} x epsilon {1e-6,0} x {Newton,eigh} x interval "
-          "{1,2} x {float32,float64}, plus float32 pmap over 3 devices (4 statistics padded to 6 work items) and all-1x1-statistics "
-          "configurations: after every transition each stored preconditioner is bit-identical to before or (refresh step and "
+          "{1,2} x {float32,float64}, plus float32 pmap over 3 devices (4 statistics padded to 6 work items), x64 with thresholds that float32 rounds down (0.7, 0.01) "
+          "at interval 2, and all-1x1-statistics configurations: after every transition each stored preconditioner is bit-identical to before or (refresh step and "
           "reported error finite and below the threshold); all stored preconditioner leaves finite; updates finite on histories of "
           "finite moderate gradients.",
           "Fault values beyond the seven classes and fault positions inside a tensor (one fixed entry) are not covered; one known "
@@ -62,7 +63,8 @@ CHECKS = {
           "({0..3}) x {no exclusion, skip_preconditioning_rank_lt, skip_preconditioning_dim_size_gt}; tearfree: {SGD, RMSPROP, ADAFACTOR} "
           "x {Shampoo, Sketchy} x start x skip rules; every history over {gA,gB,gSeed,g0} of length <= 3 (4) with momentum, Nesterov and "
           "weight decay off and lr=1; the grafting optimizer's own hyper-parameters (diagonal epsilon 1e-3, second-moment decay 1, "
-          "tiny gradients after ordinary ones; tearfree graft decay 1) as extra variants. Per leaf and step: before the start step and for excluded leaves the update equals the closed-form "
+          "tiny gradients after ordinary ones; tearfree graft decay 1) as extra variants; tearfree tasks run after neighbouring grafting "
+          "configurations were built and stepped in the same process. Per leaf and step: before the start step and for excluded leaves the update equals the closed-form "
           "grafting step (1e-6); afterwards its norm equals the grafting step's norm (1e-5), it is parallel to the gradient "
           "preconditioned with the matrices the stored (packed, quantized, sketched) preconditioners denote (angle bounded by the "
           "float32 rounding bound of that application, at least 1.5e-3), or zero when that gradient is zero.",
@@ -88,7 +90,8 @@ CHECKS = {
           "and compression rank {0,1} go through merge_small_dims, BlockPartitioner, Preconditioner (announced shapes, exponent, "
           "statistics slots, identity and slot-scaled preconditioning), tearfree blockify/deblockify (+ a lattice of exact-multiple "
           "shapes with up to two blocked axes) and reshaper merge/unmerge; each result is compared with an independent slice "
-          "enumeration on arange tensors, so loss, duplication or permutation of a single element is visible.",
+          "enumeration on arange tensors, so loss, duplication or permutation of a single element is visible; every Preconditioner is "
+          "asked for its shapes twice; the reshaper round trip is repeated with a float32 update next to bfloat16 parameters.",
           "dims > B (block arithmetic is periodic in the block size); maximal merging is not demanded (the property only states the "
           "size limit).", "DESIGN.md §4 C06"),
   "C07": ("abstract explicit-state exploration: pytree signatures as states, jax.eval_shape(update) on a concrete init as the "
@@ -131,7 +134,8 @@ CHECKS = {
           "estimate) is recovered from the returned constant by bisection and must lie in [0.5,1] x epsilon x lambda_max; preconditioned_grad with mixed full/packed preconditioners for every "
           "gradient shape over dims {3,5,6} of rank 1..3 and every has_zeros pattern against dense tensordot (1e-12); and through the "
           "public optimizer for r in {1,-1,2,-2} on matrices with an axis at, just above and just below d = |r|+2: non-admissible axes "
-          "must store the exact dense root of the stored statistic, admissible ones the [d,|r|+2] packed root.",
+          "must store the exact dense root of the stored statistic, admissible ones the [d,|r|+2] packed root; ridge 0 on diagonal statistics with trailing exactly-zero coordinates (mean over "
+          "all unpadded non-retained dimensions).",
           "Spectra without a gap at the cut are excluded (the denoted matrix is not unique there); d > 10.", "DESIGN.md §4 C10"),
   "C11": ("exhaustive lattice enumeration (depth 1) of the real QuantizedValue quantize/dequantize/requantize over all float32 "
           "exponents x bucket boundaries",
@@ -141,7 +145,9 @@ CHECKS = {
           "of integers, bucket sizes (one per column = x.shape[1:]) and dequantized tensor checked; square matrices with extract_diagonal "
           "(also for the pass-through dtypes); constant and "
           "zero columns; float32/bfloat16 pass-through; and the optimizer's own quantized state under pmap over all histories (every "
-          "stored QuantizedValue is a fixed point of dequantize->quantize, carried preconditioners keep their bits). Oracle per element in float64: half-bucket bound, no most-negative integer, "
+          "stored QuantizedValue is a fixed point of dequantize->quantize, carried preconditioners keep their bits, the stored statistic "
+          "is within half a bucket per column of w1*dequantize(previous)+w2*GG^T, a zero gradient with beta2=1 changes nothing) and the "
+          "sharded variant's declared layout of the quantized state. Oracle per element in float64: half-bucket bound, no most-negative integer, "
           "exact zeros and diagonal, identical integers after re-quantisation.",
           "XLA CPU backend (flush-to-zero) is the platform observed; tensors of rank > 3 not covered. Two known findings (bucket "
           "underflow, FLT_MAX) are listed in known_findings.json.", "DESIGN.md §4 C11"),
@@ -151,7 +157,8 @@ CHECKS = {
           "weight decay x normalisation, every history over {gA,gB,g0,gSeed} of length <= 4 (5) is executed; after every transition the "
           "cover invariant (min over a coordinate's accumulators >= exact decayed sum, exact for dyadic decay), monotonicity for "
           "beta2=1, the per-coordinate step bound against diagonal AdaGrad/RMSProp and rank-1 equality (with momentum: against the same "
-          "momentum average of diagonal AdaGrad/RMSProp's steps, 3% allowance for the int8 momentum) are evaluated.",
+          "momentum average of diagonal AdaGrad/RMSProp's steps, 3% allowance for the int8 momentum) are evaluated; bfloat16 tensors with exactly representable events and an entry whose "
+          "square overflows float32 are extra tasks.",
           "Gradient values outside the dyadic alphabet; dims > 3.", "DESIGN.md §4 C12"),
   "C13": ("explicit-state enumeration of the product device count x number of statistics x representation x all gradient "
           "histories through jax.pmap on forced host devices and through the sharded optimizer under real meshes, differential oracle "
@@ -167,7 +174,8 @@ CHECKS = {
           "DESIGN.md §4 C13"),
   "C14": ("explicit-state BFS over all gradient histories with a crash/restore transition at every reached state (serialize, fresh "
           "optimizer object and trace, restore, continue), bitwise differential oracle",
-          "For 14 optimizers (distributed_shampoo full / eigh+schedule / scheduled refresh interval stepped op by op without jit / "
+          "For 16 optimizers (sm3 stepped op by op on leaves as deserialized; distributed_shampoo trained in a process that enabled x64 "
+          "after the import and resumed in a fresh process with x64 from the start; distributed_shampoo full / eigh+schedule / scheduled refresh interval stepped op by op without jit / "
           "scheduled learning rate under jax_enable_x64 / pmap+quantized / compressed / frequent-directions / sharded / "
           "sharded restored into the target declared by shape_and_dtype_fn / LOBPCG, sm3, tearfree Shampoo / Sketchy / Adafactor-grafted) every state reached by a history over {gA,gB} of length <= 3 (5 "
           "thorough) is serialized with flax msgpack, restored into the init template of a freshly constructed optimizer, and for every "
@@ -196,7 +204,8 @@ CHECKS = {
           "iterates (1e-10), last sketch row zero, FD bracket against the exact covariance, S-AdaGrad alpha = delta + escaped mass, "
           "equality with exact full-matrix AdaGrad whenever the history rank is below the sketch size and delta > 0, for S-AdaGrad the "
           "step actually applied against the post-update (P, e, alpha) (skipped and counted where alpha is below 1e-10 of the spectrum), "
-          "tiny-scale tasks for every algorithm (gradients x 2^-12 / 2^-24, delta 0 and 2^-44), the training loop _compiled_run_dataset over every chunking of every row "
+          "tiny-scale tasks for every algorithm (gradients x 2^-12 / 2^-24, delta 0 and 2^-44), every task after an eager run on the same "
+          "bound (init, update) pair, the training loop _compiled_run_dataset over every chunking of every row "
           "sequence, and neighbouring hyper-parameters bound in the same process before the task (module-level caches).",
           "Finite iterates are not part of the property (Ada-FD with delta=0 divides by its zero diagonal term; counted, not judged).",
           "DESIGN.md §4 C16"),
@@ -204,8 +213,8 @@ CHECKS = {
           "bounded (dims, scores, layout, base rank, rule) instances (depth 1)",
           "Every synthetic optimizer state with up to 3 (quick) / 4 (thorough) sketched axes, dims from {2,3,4,6}, "
           "scores from an 8-value scale-disparate pool, both layer layouts, both layer namings (the routine walks a set of names), "
-          "base rank 1..dim+1, five scoring rules and the running-average mode, plus a float32-adversarial sub-lattice (one dominant "
-          "score, several around its float32 ulp, 4-5 axes), is passed to the real function; the budget and range invariant is evaluated on every result. The 'model' is the "
+          "base rank 1..dim+1, five scoring rules and the running-average mode, plus float32- and float64-adversarial sub-lattices (one dominant "
+          "score, several around its float32 ulp / below its float64 ulp, 4-5 axes), is passed to the real function; the budget and range invariant is evaluated on every result. The 'model' is the "
           "input lattice; the exploration has depth 1, which is the right level for a pure function of its input.",
           "Scores reach the routine through the real score_fn from synthetic sketch records; values outside the pools and "
           "more than 4 axes are not covered.", "DESIGN.md §4 C17"),
